@@ -143,6 +143,12 @@ where
     }
     // ANCHOR_END: process
 
+    /// Number of tasks currently held by the core's executor (test-only instrumentation).
+    #[cfg(feature = "verif")]
+    pub fn verif_executor_tasks(&self) -> usize {
+        self.executor.verif_tasks()
+    }
+
     /// Get the current state of the app's view model.
     pub fn view(&self) -> A::ViewModel {
         let model = self.model.read().expect("Model RwLock was poisoned.");
